@@ -29,7 +29,7 @@ FLOORS = {"quick": {"firings_checked": 20000, "calls": 20000, "calls_at_expiry_i
                        "restart_in_callback": 60000, "stop_in_callback": 10000, "scalar_args_cases": 20000,
                        "auto_restart_cases": 30000, "restart_pending": 80000, "restart_after_fired": 10000,
                        "stops": 60000, "suppressed_by_stop": 20000, "old_expiry_voided": 40000}}
-KEYS = tuple(FLOORS["quick"].keys()) + ("falsy_scalar_args_cases", "big_clock_cases", "long_history_cases", "rational_clock_cases")
+KEYS = tuple(FLOORS["quick"].keys()) + ("falsy_scalar_args_cases", "big_clock_cases", "long_history_cases", "rational_clock_cases", "periodic_callback_returns_false")
 # floors for the situations added with the later rounds of seeded changes (evidence that they were really exercised)
 FLOORS["quick"].update({'rational_clock_cases': 150})
 FLOORS["thorough"].update({'rational_clock_cases': 750})
@@ -37,6 +37,8 @@ FLOORS["quick"].update({'two_timer_cases': 300, 'unreferenced_timer_probes': 4})
 FLOORS["thorough"].update({'two_timer_cases': 1500, 'unreferenced_timer_probes': 4})
 FLOORS["quick"].update({'timer_attribute_cases': 60})
 FLOORS["thorough"].update({'timer_attribute_cases': 300})
+FLOORS["quick"].update({'periodic_callback_returns_false': 1000})
+FLOORS["thorough"].update({'periodic_callback_returns_false': 5000})
 
 
 def plan(tier):
@@ -96,6 +98,8 @@ def gen_case(rng, i):
         case.update({"auto": rng.random() < 0.5, "tau0": 0.25 if flavour == "exact" else 0.3, "ctrls": [], "horizon": 420,
                      "long_history": True, "env_t0": 0})
         case["incb"] = {} if case["auto"] else {"*": ["restart", case["tau0"]]}
+    # what the callback returns is its own business (a recorder's `return pid not in seen`): the timer ignores it
+    case["cbret"] = rng.choice([None, None, None, False, False, 0, True, "again"])
     return case
 
 
@@ -163,6 +167,8 @@ def run_case(case, stats):
         args, kwargs, want_args, want_kw = [1], {"x": 5}, (1,), {"x": 5}
     if case["auto"]:
         stats["auto_restart_cases"] += 1
+        if case.get("cbret") is False:
+            stats["periodic_callback_returns_false"] += 1
     holder = {}
     nfire = [0]
 
@@ -187,6 +193,7 @@ def run_case(case, stats):
         act = case["incb"].get(str(nfire[0])) or case["incb"].get("*")
         if act:
             do(act, "cb")
+        return case.get("cbret")
 
     def creator():
         if case["t0"] > 0:
